@@ -275,11 +275,18 @@ func (c *cluster) buildNodeServices(n *vnode) error {
 	return err
 }
 
+// clusterNames, when set, are the user names of the next clusters' participants (default node_0, node_1, …)
+var clusterNames []string
+
 func newCluster(dir string, n int, password string) (*cluster, error) {
 	c := &cluster{dir: dir, board: filepath.Join(dir, "board.txt"), lock: filepath.Join(dir, "board.lock")}
 	os.MkdirAll(dir, 0o755)
 	for i := 0; i < n; i++ {
-		v := &vnode{idx: i, name: fmt.Sprintf("node_%d", i), dir: filepath.Join(dir, fmt.Sprintf("n%d", i))}
+		name := fmt.Sprintf("node_%d", i)
+		if i < len(clusterNames) {
+			name = clusterNames[i]
+		}
+		v := &vnode{idx: i, name: name, dir: filepath.Join(dir, fmt.Sprintf("n%d", i))}
 		os.MkdirAll(v.dir, 0o755)
 		v.lg = &memLogger{name: v.name}
 		var err error
